@@ -22,10 +22,12 @@ structure DState where
   fbs : List (CfgId × List Key) -- handlers with dynamic upstreams: their static (fallback) upstream keys
   srcFails : Bool            -- the dynamic source currently answers with an error
   streaming : List Nat       -- requests whose response body is being copied (headers arrived, body not finished)
+  wsReqs : List Nat          -- requests that asked for a protocol upgrade (Connection: Upgrade)
+  wsStreaming : List Nat     -- …whose upgraded connection is open (a subset of `streaming`)
   aged : List Nat            -- requests that were already parked while a slow answer (`sl`) was being waited for:
                              -- their own round trip has taken longer than unhealthy_latency, whatever comes
 
-def dinit : DState := { s := init, cur := none, down := [], keys := [], iters := [], fbs := [], srcFails := false, streaming := [], aged := [] }
+def dinit : DState := { s := init, cur := none, down := [], keys := [], iters := [], fbs := [], srcFails := false, streaming := [], wsReqs := [], wsStreaming := [], aged := [] }
 
 def stores (s : State) (c : CfgId) : List Key → Option State
   | [] => some s
@@ -131,6 +133,8 @@ def strikesFor (p : Params) (what : String) (code : Nat) (aged : Bool := false) 
 inductive SStep
   | load (ks : List Key) (p : Params) (fb : List Key)   -- fb: static upstreams of a handler with a dynamic source
   | srcFail (b : Bool)
+  | newReqWs                -- a GET that asks for a protocol upgrade (websocket)
+  | wsBegin (r : Nat)       -- the backend switches protocols (101): the connection stays open
   | streamBegin (r : Nat)   -- the backend sends a 200 header and the first part of the body, then pauses
   | streamEnd (r : Nat)     -- …and finishes the body
   | badLoad (ks : List Key)
@@ -174,6 +178,7 @@ def agedAfter (d : DState) : SStep → List Nat
     else d.aged.filter (· != r)
   | .abort r => d.aged.filter (· != r)
   | .streamBegin r => d.aged.filter (· != r)
+  | .wsBegin r => d.aged.filter (· != r)
   | _ => d.aged
 
 def tickN (s : State) : Nat → State
@@ -339,6 +344,29 @@ def sstep (d : DState) : SStep → Option (DState × String)
       | some s1 =>
         if isDynReq s1 d.s.reqs.length then advanceAny { d with s := s1 } d.s.reqs.length
         else (advance fuel0 { d with s := s1 } d.s.reqs.length).map fun x => ({ d with s := x.1 }, x.2)
+  | .newReqWs =>
+    match curLive d with
+    | none => none
+    | some c =>
+      match step d.s (.newReq c true) with
+      | none => none
+      | some s1 =>
+        if isDynReq s1 d.s.reqs.length then
+          advanceAny { d with s := s1, wsReqs := d.s.reqs.length :: d.wsReqs } d.s.reqs.length
+        else (advance fuel0 { d with s := s1 } d.s.reqs.length).map fun x =>
+          ({ d with s := x.1, wsReqs := d.s.reqs.length :: d.wsReqs }, x.2)
+  | .wsBegin r =>
+    -- 101 Switching Protocols (reverseproxy.go:1019-1024, streaming.go handleUpgradeResponse): strikes
+    -- for the status happen first; reverseProxy does not return — the request stays in flight —
+    -- until the upgraded connection is closed
+    if isParked d.s r && d.wsReqs.contains r && !d.streaming.contains r then
+      match d.s.reqs[r]? with
+      | none => none
+      | some q =>
+        match strikesN d.s r (strikesFor q.par "ok" 101 (d.aged.contains r)) with
+        | none => none
+        | some s1 => some ({ d with s := s1, streaming := r :: d.streaming, wsStreaming := r :: d.wsStreaming }, "S")
+    else none
   | .streamBegin r =>
     -- RoundTrip returned the response: status (and latency) strikes happen now; the request stays
     -- in flight while the body is copied (reverseproxy.go:1066 copyResponse inside reverseProxy)
@@ -410,7 +438,15 @@ def sstep (d : DState) : SStep → Option (DState × String)
               else (endAttempt s1 r .ok).map fun s2 => ({ d with s := s2 }, "ok")
     else none
   | .abort r =>
-    if d.streaming.contains r && isParked d.s r then
+    if d.wsStreaming.contains r && isParked d.s r then
+      -- the client of an upgraded connection goes away: the backend connection is closed, the
+      -- copiers end, the handler returns normally
+      match endAttempt d.s r .clientAbort with
+      | none => none
+      | some s1 =>
+        if isDynReq d.s r then continueOrRetDyn { d with streaming := d.streaming.filter (· != r) } s1 r "ok"
+        else some ({ d with s := s1, streaming := d.streaming.filter (· != r) }, "ok")
+    else if d.streaming.contains r && isParked d.s r then
       -- the client goes away while the body is copied: copyResponse fails, the handler panics
       -- with http.ErrAbortHandler (reverseproxy.go:1073-1084); nothing is counted
       match endAttempt d.s r .panic with
